@@ -185,6 +185,26 @@ struct eng_mt
   using s = std::mt19937;
   static constexpr char const *name = "mt19937";
 };
+// engines the library has no alias for, wrapped directly: a 64-bit engine (seeds and results beyond 32 bits), an engine
+// with 24-bit results, and an engine adaptor
+struct eng_mt64
+{
+  using f = fr::generator::basic_pseudo<std::mt19937_64>;
+  using s = std::mt19937_64;
+  static constexpr char const *name = "mt19937_64";
+};
+struct eng_ranlux
+{
+  using f = fr::generator::basic_pseudo<std::ranlux24_base>;
+  using s = std::ranlux24_base;
+  static constexpr char const *name = "ranlux24_base";
+};
+struct eng_knuth
+{
+  using f = fr::generator::basic_pseudo<std::knuth_b>;
+  using s = std::knuth_b;
+  static constexpr char const *name = "knuth_b";
+};
 template <class E>
 typename E::f::seed fseed(std::uint64_t v)
 {
@@ -1670,6 +1690,13 @@ void vf_slice_4()
   setter_entry<eng_mt>();
   observed_entry<eng_minstd>();
   observed_entry<eng_mt>();
+  generator_entry<eng_mt64>();
+  generator_entry<eng_ranlux>();
+  generator_entry<eng_knuth>();
+  history_entry<eng_mt64>();
+  history_entry<eng_ranlux>();
+  setter_entry<eng_mt64>();
+  setter_entry<eng_knuth>();
 }
 #endif
 
